@@ -64,7 +64,9 @@ def compare(ctx: Ctx, rule: str, key: str, where: str, r: dict[str, Any], ref: A
 
 # ---- FeatureIDE ---------------------------------------------------------------------------------
 def fide_doc(ref: AObj, explicit_false: bool, graphics: bool, attr_order: bool, with_constraints: bool = True,
-             description: bool = False) -> str:
+             description: bool = False, group_flags: bool = False) -> str:
+    """group_flags: FeatureIDE keeps the `mandatory` attribute on children of <or>/<alt> elements,
+    where it has no meaning (the group decides): such children still belong to the group only."""
     def attrs(f: AObj, mandatory: Optional[bool]) -> str:
         items = []
         if mandatory is True:
@@ -96,6 +98,8 @@ def fide_doc(ref: AObj, explicit_false: bool, graphics: bool, attr_order: bool, 
         for r in rels:
             for c in r._f["children"]:
                 m = None if tag != "and" else ((r._f["card_min"], r._f["card_max"]) == (1, 1))
+                if tag != "and" and group_flags:
+                    m = (len(out) % 2 == 0)          # alternate mandatory="true" / "false" on group children
                 out.extend(el(c, m, depth + 1))
         out.append(f"{tabs}</{tag}>")
         return out
@@ -129,6 +133,11 @@ def featureide(pm: ProgramModel, ctx: Ctx, mb: ModelBuilder) -> None:
         compare(ctx, "C09-FIDE", key if r["raise"] or diff(describe(ref), describe(r["model"]), ctc_names=False,
                                                            ctc_compare="semantic") else f"variant:{label}",
                 where, r, ref, f"FeatureIDE document ({label})")
+    # mandatory flags on children of or/alt groups are meaningless and must not create relations
+    for ef in (False, True):
+        r = read(pm, "FeatureIDEReader", fide_doc(ref, ef, False, False, group_flags=True).encode("utf8"))
+        compare(ctx, "C09-FIDE", f"group-children-with-mandatory-flag:explicit-false={ef}", where, r, ref,
+                "FeatureIDE document whose or/alt children carry a mandatory attribute")
     # missing constraints section
     ref0 = ref_model(mb)
     ref0._f["ctcs"] = []
